@@ -27,10 +27,12 @@ THEOREMS = [
     "Aio.C15.sendLoop_exact",
     "Aio.C15.body_is_slice",
     "Aio.C15.response_consistent",
+    "Aio.C15.head_has_no_body",
     "Aio.C15.conditional_precedence",
     "Aio.C15.walk_resolved",
     "Aio.C15.stat_of_resolved",
-    "Aio.C15.confined",
+    "Aio.C15.confined_partial",
+    "Aio.C15.f21_symlink_loop_escapes_root",
     "Aio.C15.follow_only_via_links",
     "Aio.C15.listing_only_if_enabled",
     "Aio.C15.sibling_not_followed",
